@@ -77,7 +77,19 @@ fn gen_res(r: &mut Rng, warm: usize, block_hint: Option<usize>, faulty: bool) ->
             6 => a.warm = plen + 1 + r.below(3) as usize,        // warm-up longer than a partition
             7 => a.po = *r.pick(&[15usize, 16, 17, 64]),         // partition order out of range
             8 => { a.block = 0; a.q.clear(); a.r.clear(); }      // block size 0
-            9 => { if a.warm > 0 { a.q[0] = 1; } else { a.warm = a.block + 5; } }
+            9 => { // a warm-up slot that is not empty: quotient 1, quotients whose set bits leave a u32 when shifted by the first
+                   // parameter (k * 2^(32-p0), 2^31), a remainder alone, and quotient/remainder pairs that sum to 2^32 after the shift
+                   if a.warm > 0 {
+                       let j = r.below(a.warm as u64) as usize; let p0 = a.params.first().copied().unwrap_or(0).min(31) as u32;
+                       match r.below(6) {
+                           0 => a.q[j] = 1,
+                           1 => a.q[j] = if p0 == 0 { 1 << 31 } else { 1u32 << (32 - p0) },
+                           2 => a.q[j] = if p0 == 0 { 3 << 30 } else { (1 + r.below(3) as u32) << (32 - p0).min(30) },
+                           3 => a.q[j] = 1 << 31,
+                           4 => a.r[j] = 1,
+                           _ => { if p0 > 0 { a.q[j] = (((1u64 << 32) - (1u64 << p0)) >> p0) as u32; a.r[j] = 1u32 << p0; } else { a.q[j] = u32::MAX; a.r[j] = 1; } }
+                       }
+                   } else { a.warm = a.block + 5; } }
             10 => { // a remainder that does not fit its partition's parameter: far out, exactly 2^p (the first value that
                     // does not fit) and 2^p + 1; also the last value that fits (2^p - 1, still valid)
                     let k = r.below(a.r.len().max(1) as u64) as usize;
